@@ -3,12 +3,15 @@ package props
 import (
 	"context"
 	"fmt"
+	"sort"
 	"time"
 
 	"github.com/formancehq/ledger/verifh/ev"
 	"github.com/formancehq/ledger/verifh/lx"
 	"github.com/formancehq/ledger/verifh/reg"
 )
+
+var c02Sigs = []string{"acc:volumes", "acc:get-volumes", "acc:effective-volumes", "vol:", "agg:", "read:", "ref:"}
 
 var pgsimAssumption = "pgsim: hand-written in-process model of the Postgres subset the ledger uses (READ COMMITTED MVCC, row/advisory locks, triggers, PL/pgSQL); it cannot be validated against a real server in this sandbox"
 
@@ -43,12 +46,43 @@ func vacuous(r *ev.Run, st *lx.SeqStats, need ...string) {
 func init() {
 	reg.Register("C02", func() int {
 		r := ev.Start("C02", ev.LevelMC, 100*time.Second, 15*time.Minute)
+		// first configuration (small, run first so that a time cut never drops it): the population of the ledger's BUCKET changes during the
+		// history (a neighbour created beside it, the bucket soft-deleted with its rows left
+		// in place, a ledger created in the soft-deleted bucket, the bucket restored): the
+		// volumes every routable ledger reports must still be the fold of ITS OWN postings
+		var stb *lx.SeqStats
+		var eb *lx.SeqExplorer
+		{
+			eb = &lx.SeqExplorer{
+				Ledgers:  []lx.LedgerSpec{{Name: "l3", Bucket: "b2"}},
+				Alphabet: c02BucketAlphabet(),
+				Depth:    ev.Pick(r, 3, 5),
+				Restart:  true,
+				Sigs:     c02Sigs,
+				Check: func(ctx context.Context, s *lx.StepInfo, rep *lx.Report) {
+					for _, n := range sortedLedgers(s.Ctrls) {
+						sub := &lx.Report{}
+						lx.CheckCurrent(ctx, s.Ctrls[n], s.Refs[n], sub)
+						for _, m := range sub.Items {
+							rep.Add(m.Sig, "%s: %s", n, m.What)
+						}
+					}
+				},
+			}
+			var err error
+			stb, err = eb.Run(context.Background(), r)
+			if err != nil {
+				r.EngineError(err.Error())
+				return r.Finish(nil, []string{pgsimAssumption})
+			}
+			vacuous(r, stb, "post:ok", "createledger:ok", "deletebucket:ok", "restorebucket:ok")
+		}
 		e := &lx.SeqExplorer{
 			Ledgers:  []lx.LedgerSpec{{Name: "l1"}},
 			Alphabet: append(coreAlphabet(), retriedOps()...),
 			Depth:    ev.Pick(r, 3, 4),
 			Restart:  true,
-			Sigs:     []string{"acc:volumes", "acc:get-volumes", "acc:effective-volumes", "vol:", "agg:", "read:", "ref:"},
+			Sigs:     c02Sigs,
 			Check: func(ctx context.Context, s *lx.StepInfo, rep *lx.Report) {
 				lx.CheckCurrent(ctx, s.Ctrl, s.Ref, rep)
 			},
@@ -59,7 +93,43 @@ func init() {
 			return r.Finish(nil, []string{pgsimAssumption})
 		}
 		vacuous(r, st, "post:ok", "post:insufficient_funds", "revert:ok", "script:ok")
-		return r.Finish(seqCoverage(e, st, "every sequence of length<=depth over the write alphabet (creates by postings/script incl. src==dst, multi-posting, 2^64+1, back/future dated, reverts, metadata, dry run, failing writes), executed through the real system controller on pgsim; after each sequence GetAccount/ListAccounts(expand volumes, effectiveVolumes), GetVolumesWithBalances and GetAggregatedBalances are compared with a reference fold of the committed postings, from the live process and from a freshly attached one"),
+		{
+			st.Paths += stb.Paths
+			st.Transitions += stb.Transitions
+			st.States += stb.States
+			for k, v := range stb.Outcomes {
+				st.Outcomes["bucket-lifecycle/"+k] += v
+			}
+			for k, v := range stb.Observations {
+				st.Observations["bucket-lifecycle/"+k] += v
+			}
+			st.Exhaustive = st.Exhaustive && stb.Exhaustive && stb.DepthDone == eb.Depth
+		}
+		return r.Finish(seqCoverage(e, st, "every sequence of length<=depth over the write alphabet (creates by postings/script incl. src==dst, multi-posting, 2^64+1, back/future dated, reverts, metadata, dry run, failing writes), executed through the real system controller on pgsim; after each sequence GetAccount/ListAccounts(expand volumes, effectiveVolumes), GetVolumesWithBalances and GetAggregatedBalances are compared with a reference fold of the committed postings, from the live process and from a freshly attached one; before that, every sequence (length<=3 quick / 5 thorough) over the bucket-lifecycle alphabet (postings on l3 and on a ledger l4 created beside it in the same bucket, soft delete and restore of the bucket), same comparison for every routable ledger"),
 			[]string{pgsimAssumption})
 	})
+}
+
+// c02BucketAlphabet: two ledgers of one bucket whose postings touch the SAME accounts and
+// asset with different amounts, and the system-level operations that change which of them
+// are live.
+func c02BucketAlphabet() []lx.Op {
+	p := func(s, d, a, n string) lx.P { return lx.P{Src: s, Dst: d, Ast: a, Amt: n} }
+	return []lx.Op{
+		{Kind: "post", Ledger: "l3", Name: "fund100", Postings: []lx.P{p("world", "a", "USD", "100")}},
+		{Kind: "post", Ledger: "l3", Name: "a>b30", Postings: []lx.P{p("a", "b", "USD", "30")}},
+		{Kind: "createledger", Ledger: "l4", Address: "b2", Name: "create-l4-in-b2"},
+		{Kind: "post", Ledger: "l4", Name: "fund7", Postings: []lx.P{p("world", "a", "USD", "7")}},
+		{Kind: "deletebucket", Address: "b2", Name: "delete-bucket-b2"},
+		{Kind: "restorebucket", Address: "b2", Name: "restore-bucket-b2"},
+	}
+}
+
+func sortedLedgers[V any](m map[string]V) []string {
+	out := make([]string, 0, len(m))
+	for k := range m {
+		out = append(out, k)
+	}
+	sort.Strings(out)
+	return out
 }
